@@ -490,6 +490,20 @@ var registry = map[string]*regCheck{}
 // register declares a check: gen draws one case (any JSON-serialisable value)
 // from rapid generators only; judge is a pure function of the case and the
 // code under test and returns nil when every rule holds.
+// countGenLabels counts the generator's class labels of a case (input-shape classes such as size=big, seedAbsent).
+func countGenLabels(name string, c interface{}) {
+	lc, ok := c.(interface{ genLabels() []string })
+	if !ok {
+		return
+	}
+	for _, l := range lc.genLabels() {
+		if strings.HasPrefix(l, "vmode=") {
+			continue
+		}
+		st.inc("gen:" + name + ":" + l)
+	}
+}
+
 func register[C any](prop, name string, weight float64, gen func(t *rapid.T) C, judge func(c C) *Fail) {
 	rc := &regCheck{prop: prop, name: name, weight: weight}
 	rc.property = func(rt *rapid.T) {
@@ -506,6 +520,7 @@ func register[C any](prop, name string, weight float64, gen func(t *rapid.T) C, 
 		rapid.Check(t, func(rt *rapid.T) {
 			c := gen(rt)
 			st.inc("evaluations:" + name)
+			countGenLabels(name, c)
 			writeCurCase(prop, name, c)
 			if f := judgeWatched(prop, name, c, judge); f != nil {
 				if os.Getenv("VERIF_SURVEY") != "" { // development aid: classify failures instead of stopping
